@@ -79,17 +79,26 @@ Definition chi_apply (d : nat) (chi : cmat) (X : cmat) : cmat :=
   fun i j => sumn (d * d) (fun al => sumn (d * d) (fun be =>
     chi al be * sandwich d (comp_basis d al) X (cadj (comp_basis d be)) i j)).
 
-(* ---------------------------------------------------------------- matrix_util.truncate_hs
-   tmp = where(|im| < eps, re, z);  raise ValueError if some tmp.im != 0;  result = where(|re| < eps, 0, re) *)
+(* ---------------------------------------------------------------- matrix_util.truncate_hs  (as repaired by fix truncate-hs-relative-imag-threshold, owner C04)
+   thr = eps * max(1, max_ij |re hs_ij|)            (max over an empty array taken as 0; before that fix: thr = eps)
+   tmp = where(|im| < thr, re, z);  raise ValueError if some tmp.im != 0;  result = where(|re| < eps, 0, re)
+   The two versions coincide whenever every |re hs_ij| <= 1, and whenever no |im hs_ij| lies in [eps, thr). *)
 Definition kabs (x : F) : F := if kleb F (c0 F) x then x else copp F x.
 Definition kltb (x y : F) : bool := negb (kleb F y x).
-Definition trunc_ok (eps : F) (z : Cx) : bool := kltb (kabs (im z)) eps || keqb F (im z) (c0 F).
+Definition kmax (x y : F) : F := if kleb F x y then y else x.
+Fixpoint maxn (n : nat) (f : nat -> F) : F := match n with O => c0 F | S k => kmax (maxn k f) (f k) end.   (* max(0, f 0, .., f (n-1)) *)
+Definition im_thr (eps : F) (size : F) : F := cmul F eps (kmax (c1 F) size).
+Definition trunc_ok (thr : F) (z : Cx) : bool := kltb (kabs (im z)) thr || keqb F (im z) (c0 F).
 Definition trunc_val (eps : F) (z : Cx) : F := if kltb (kabs (re z)) eps then c0 F else re z.
+Definition hs_size (m n : nat) (H : cmat) : F := maxn m (fun i => maxn n (fun j => kabs (re (H i j)))).
+Definition vec_size (n : nat) (v : cvec) : F := maxn n (fun i => kabs (re (v i))).
 Definition truncate_hs (eps : F) (m n : nat) (H : cmat) : option rmat :=
-  if allb m (fun i => allb n (fun j => trunc_ok eps (H i j)))
+  let thr := im_thr eps (hs_size m n H) in            (* computed once, as in the code *)
+  if allb m (fun i => allb n (fun j => trunc_ok thr (H i j)))
   then Some (fun i j => trunc_val eps (H i j)) else None.
 Definition truncate_vec (eps : F) (n : nat) (v : cvec) : option rvec :=
-  if allb n (fun i => trunc_ok eps (v i)) then Some (fun i => trunc_val eps (v i)) else None.
+  let thr := im_thr eps (vec_size n v) in
+  if allb n (fun i => trunc_ok thr (v i)) then Some (fun i => trunc_val eps (v i)) else None.
 
 (* conversions as coded (formula + truncation, error branch explicit) *)
 Definition vec_of_op_impl (eps : F) (d : nat) (B : nat -> cmat) (X : cmat) : option rvec :=
@@ -150,8 +159,13 @@ Definition choi_of_var (d : nat) (B : nat -> cmat) (para : bool) (v : rvec) : cm
 (* what the docstring of to_var_from_choi promises: Choi -> HS -> variables *)
 Definition var_of_choi_spec (d : nat) (B : nat -> cmat) (para : bool) (Ch : cmat) : rvec :=
   var_of_hs d para (hs_of_choi d B Ch).
-(* what gate.to_var_from_choi DOES: it calls to_choi_from_hs_with_sparsity (the FORWARD map) on the Choi matrix *)
-Definition var_of_choi_impl (d : nat) (B : nat -> cmat) (para : bool) (Ch : cmat) : cvec :=
+(* what gate.to_var_from_choi DOES after fix gate-to-var-from-choi-inverse-map (the model the harness compares with):
+   to_hs_from_choi_with_sparsity (formula + truncation, ValueError branch) followed by convert_hs_to_var *)
+Definition var_of_choi_fixed (eps : F) (d : nat) (B : nat -> cmat) (para : bool) (Ch : cmat) : option rvec :=
+  match hs_of_choi_sparse_impl eps d B Ch with Some H => Some (var_of_hs d para H) | None => None end.
+(* AS CODED BEFORE fix gate-to-var-from-choi-inverse-map: to_choi_from_hs_with_sparsity (the FORWARD map) was applied to the
+   Choi matrix.  Kept only for the refutation theorem and for naming the old behaviour in a violation message. *)
+Definition var_of_choi_before_fix (d : nat) (B : nat -> cmat) (para : bool) (Ch : cmat) : cvec :=
   cvar_of_hs d para (cchoi_of_hs d B Ch).
 
 (* state: state.convert_var_to_vec / convert_vec_to_var with the wrappers to_density_matrix_from_var / to_var_from_density_matrix;
@@ -206,7 +220,8 @@ Arguments hs_of_map {F} d B G _ _. Arguments map_linear {F} d G.
 Arguments sandwich {F} d K X L _ _. Arguments kraus_apply {F} d Ks X _ _. Arguments kraus_hs_cb {F} d Ks _ _.
 Arguments chs_of_kraus_impl {F} d B Ks _ _. Arguments process_matrix_of_cb {F} d Hcb _ _.
 Arguments process_matrix {F} d B H _ _. Arguments chi_apply {F} d chi X _ _.
-Arguments kabs {F} x. Arguments kltb {F} x y. Arguments trunc_ok {F} eps z. Arguments trunc_val {F} eps z.
+Arguments kabs {F} x. Arguments kltb {F} x y. Arguments kmax {F} x y. Arguments maxn {F} n f. Arguments im_thr {F} eps size.
+Arguments hs_size {F} m n H. Arguments vec_size {F} n v. Arguments trunc_ok {F} thr z. Arguments trunc_val {F} eps z.
 Arguments truncate_hs {F} eps m n H. Arguments truncate_vec {F} eps n v.
 Arguments vec_of_op_impl {F} eps d B X. Arguments hs_of_choi_sparse_impl {F} eps d B Ch.
 Arguments hs_of_choi_dict_impl {F} eps d B Ch. Arguments hs_of_kraus_impl {F} eps d B Ks.
@@ -217,7 +232,7 @@ Arguments chs_sparse {F} d B Ch _ _. Arguments cnzb {F} z. Arguments dict_hs_to_
 Arguments dict_choi_to_hs {F} d B a b. Arguments choi_dict {F} d B H _ _. Arguments chs_dict {F} d B Ch _ _.
 Arguments hs_of_var {F} d para v _ _. Arguments var_of_hs {F} d para H _. Arguments cvar_of_hs {F} d para H _.
 Arguments choi_of_var {F} d B para v _ _. Arguments var_of_choi_spec {F} d B para Ch _.
-Arguments var_of_choi_impl {F} d B para Ch _. Arguments svec_of_var {F} isd para v _. Arguments svar_of_vec {F} para v _.
+Arguments var_of_choi_fixed {F} eps d B para Ch. Arguments var_of_choi_before_fix {F} d B para Ch _. Arguments svec_of_var {F} isd para v _. Arguments svar_of_vec {F} para v _.
 Arguments density_of_var {F} isd d B para v _ _. Arguments var_of_density_impl {F} eps d B para X.
 Arguments pvecs_of_var {F} sd d m para v _ _. Arguments pvar_of_vecs {F} d vs _.
 Arguments ceqb {F} z w. Arguments orthonormal_dec {F} d B. Arguments complete_dec {F} d B. Arguments hermitian_basis_dec {F} d B.
